@@ -7,6 +7,7 @@ package htlcswitch
 
 //@ func ExpectedFee
 //@   props C09
+//@   bounds-safe
 //@   requires htlcAmt <= 1<<40 && f.FeeRate <= 1000000 && f.BaseFee < 1<<32
 //@   ensures  result == models.outFee(f.BaseFee, f.FeeRate, htlcAmt)
 //@   nowrap
@@ -21,14 +22,17 @@ package htlcswitch
 //@
 //@ func NewLinkError
 //@   props C09
+//@   bounds-safe
 //@   ensures result != nil
 //@
 //@ func NewDetailedLinkError
 //@   props C09
+//@   bounds-safe
 //@   ensures result != nil
 //@
 //@ func (l *channelLink) validateHtlcAmount
 //@   props C09
+//@   bounds-safe
 //@   requires l.cfg.AuxTrafficShaper.IsNone()
 //@   ensures  result == nil ==> amtOK(amt, policy.MinHTLCOut, policy.MaxHTLC)
 //@   site call lnwire.NewAmountBelowMinimum:      assert amt < policy.MinHTLCOut
@@ -37,6 +41,7 @@ package htlcswitch
 //@
 //@ func (l *channelLink) canSendHtlc
 //@   props C09
+//@   bounds-safe
 //@   requires l.cfg.AuxTrafficShaper.IsNone()
 //@   requires heightNow + l.cfg.OutgoingCltvRejectDelta < 1<<32 && heightNow + l.cfg.MaxOutgoingCltvExpiry < 1<<32
 //@   ensures  result == nil ==> amtOK(amt, policy.MinHTLCOut, policy.MaxHTLC) &&
@@ -50,6 +55,7 @@ package htlcswitch
 //@
 //@ func (l *channelLink) CheckHtlcForward
 //@   props C09
+//@   bounds-safe
 //@   let p = old(l.cfg.FwrdingPolicy)
 //@   requires l.cfg.AuxTrafficShaper.IsNone()
 //@   requires incomingHtlcAmt <= 1<<40 && amtToForward <= 1<<40
@@ -69,6 +75,7 @@ package htlcswitch
 //@
 //@ func (l *channelLink) CheckHtlcTransit
 //@   props C09
+//@   bounds-safe
 //@   let p = old(l.cfg.FwrdingPolicy)
 //@   requires l.cfg.AuxTrafficShaper.IsNone()
 //@   requires heightNow + l.cfg.OutgoingCltvRejectDelta < 1<<32 && heightNow + l.cfg.MaxOutgoingCltvExpiry < 1<<32
@@ -78,6 +85,7 @@ package htlcswitch
 //@
 //@ func (m *memoryMailBox) pktMailCourier
 //@   props C08
+//@   bounds-safe
 //@   loop * havoc
 //@   site call Front nth 0: assert arg(0) == m.repPkts
 //@   site call Front nth 1: assert arg(0) == m.addPkts
@@ -88,6 +96,7 @@ package htlcswitch
 //@
 //@ func (s *Switch) closeCircuit
 //@   props C08
+//@   bounds-safe
 //@   requires pkt != nil
 //@   site call append: assert !pkt.hasSource && retn(CloseCircuit, 1) == ErrUnknownCircuit && pkt.destRef != nil
 //@   site call FailCircuit: assert pkt.hasSource
@@ -106,6 +115,7 @@ package htlcswitch
 //@
 //@ func (cm *circuitMap) FailCircuit
 //@   props C07
+//@   bounds-safe
 //@   requires cm != nil
 //@   ensures result1 == nil ==> old(has(cm.pending, inKey)) && !old(has(cm.closed, inKey)) && result0 == old(cm.pending[inKey]) &&
 //@           has(cm.closed, inKey)
@@ -115,6 +125,7 @@ package htlcswitch
 //@
 //@ func (cm *circuitMap) CloseCircuit
 //@   props C07
+//@   bounds-safe
 //@   requires cm != nil
 //@   requires old(has(cm.opened, outKey)) ==> cm.opened[outKey] != nil
 //@   let c0 = old(cm.opened[outKey])
@@ -134,6 +145,7 @@ package htlcswitch
 //@
 //@ func (cm *circuitMap) CommitCircuits
 //@   props C07
+//@   bounds-safe
 //@   requires cm != nil
 //@   loop * havoc
 //@   let wasPending = prevheap(has(cm.pending, circuit.Incoming))
@@ -151,6 +163,7 @@ package htlcswitch
 //@
 //@ func (cm *circuitMap) cleanClosedChannels$2$2
 //@   props C07
+//@   bounds-safe
 //@   site call CheckResolutionMsg: assert arg(0) == addr(outKey) && !ret(isClosedChannel, 0) && ret(isClosedChannel, 1)
 //@   site call isClosedChannel nth 0: assert arg(0).BlockHeight == inKey.ChanID.BlockHeight && arg(0).TxIndex == inKey.ChanID.TxIndex &&
 //@        arg(0).TxPosition == inKey.ChanID.TxPosition
@@ -164,6 +177,7 @@ package htlcswitch
 //@
 //@ func (cm *circuitMap) TrimOpenCircuits
 //@   props C07
+//@   bounds-safe
 //@   loop * havoc
 //@   loop 0 step i == wrap(prev(i) + 1, 64) && !has(cm.opened, outKey) && prevheap(has(cm.opened, outKey)) &&
 //@        circuit == prevheap(cm.opened[outKey]) && circuit.Outgoing == nil && len(trimmedOutKeys) == prev(len(trimmedOutKeys)) + 1 &&
@@ -172,6 +186,7 @@ package htlcswitch
 //@
 //@ func (cm *circuitMap) trimAllOpenCircuits
 //@   props C07
+//@   bounds-safe
 //@   loop * havoc
 //@   site call TrimOpenCircuits: assert !activeChannel.IsPending && arg(2) == retn(NextLocalHtlcIndex, 0) &&
 //@        retn(NextLocalHtlcIndex, 1) == nil && arg(1).BlockHeight == ret(ShortChanID).BlockHeight &&
@@ -191,12 +206,14 @@ package htlcswitch
 //@
 //@ func (cm *circuitMap) restoreMemState$1$1
 //@   props C07
+//@   bounds-safe
 //@   site mapupdate pending: assert retn(decodeCircuit, 1) == nil && arg(val) == retn(decodeCircuit, 0) && arg(val).LoadedFromDisk &&
 //@        arg(key).HtlcID == arg(val).Incoming.HtlcID && arg(key).ChanID.BlockHeight == arg(val).Incoming.ChanID.BlockHeight &&
 //@        arg(key).ChanID.TxIndex == arg(val).Incoming.ChanID.TxIndex && arg(key).ChanID.TxPosition == arg(val).Incoming.ChanID.TxPosition
 //@
 //@ func (cm *circuitMap) restoreMemState$1$2
 //@   props C07
+//@   bounds-safe
 //@   site mapupdate opened: assert has(pending, inKey) && arg(val) == pending[inKey] && arg(val).Outgoing == outKey &&
 //@        arg(key).HtlcID == outKey.HtlcID && arg(key).ChanID.BlockHeight == outKey.ChanID.BlockHeight &&
 //@        arg(key).ChanID.TxIndex == outKey.ChanID.TxIndex && arg(key).ChanID.TxPosition == outKey.ChanID.TxPosition
@@ -204,6 +221,7 @@ package htlcswitch
 //@
 //@ func (cm *circuitMap) DeleteCircuits
 //@   props C07
+//@   bounds-safe
 //@   requires cm != nil
 //@   loop * havoc
 //@   let wasPending = prevheap(has(cm.pending, inKey))
@@ -223,10 +241,12 @@ package htlcswitch
 //@
 //@ func (cm *circuitMap) removeCircuitFromHashIndex
 //@   props C07
+//@   bounds-safe
 //@   modifies mapof(cm.hashIndex), mapof(cm.hashIndex[c.PaymentHash])
 //@
 //@ func (cm *circuitMap) addCircuitToHashIndex
 //@   props C07
+//@   bounds-safe
 //@   modifies mapof(cm.hashIndex), mapof(cm.hashIndex[c.PaymentHash])
 //@
 //@ func (s *Switch) handlePacketAdd
@@ -239,6 +259,7 @@ package htlcswitch
 //@
 //@ func (m *memoryMailBox) FailAdd
 //@   props C08
+//@   bounds-safe
 //@   site call forwardPackets: assert ret(AckPacket)
 //@   site store htlcPacket.sourceRef: assert value == pkt.sourceRef
 //@   site store htlcPacket.incomingHTLCID: assert value == pkt.incomingHTLCID
@@ -248,6 +269,7 @@ package htlcswitch
 //@
 //@ func (l *channelLink) resolveFwdPkg
 //@   props C08
+//@   bounds-safe
 //@   requires fwdPkg != nil
 //@   site call processRemoteSettleFails: assert arg(1) == fwdPkg && !ret(IsFull, 0)
 //@   site call processRemoteAdds: assert arg(1) == fwdPkg && !ret(IsFull, 1)
@@ -258,6 +280,7 @@ package htlcswitch
 //@ // ---- switch: a settle/fail travels back exactly over the circuit that was closed for it
 //@ func (s *Switch) handlePacketSettle
 //@   props C07 C08
+//@   bounds-safe
 //@   requires packet != nil
 //@   loop * havoc
 //@   site call closeCircuit: assert arg(pkt) == packet
@@ -271,6 +294,7 @@ package htlcswitch
 //@
 //@ func (s *Switch) handlePacketFail
 //@   props C07 C08
+//@   bounds-safe
 //@   requires packet != nil
 //@   loop * havoc
 //@   site call closeCircuit: assert arg(pkt) == packet
@@ -284,6 +308,7 @@ package htlcswitch
 //@
 //@ func (s *Switch) teardownCircuit
 //@   props C07
+//@   bounds-safe
 //@   loop * havoc
 //@   site call DeleteCircuits: assert len(arg(1)) == 1 && (typeis(pkt.htlc, *lnwire.UpdateFulfillHTLC) || typeis(pkt.htlc, *lnwire.UpdateFailHTLC))
 //@   site call inKey: assert arg(0) == pkt
@@ -293,10 +318,12 @@ package htlcswitch
 //@
 //@ func (p *htlcPacket) inKey
 //@   props C07 C08
+//@   bounds-safe
 //@   ensures result.ChanID == p.incomingChanID && result.HtlcID == p.incomingHTLCID
 //@   modifies nothing
 //@
 //@ func (p *htlcPacket) outKey
 //@   props C07 C08
+//@   bounds-safe
 //@   ensures result.ChanID == p.outgoingChanID && result.HtlcID == p.outgoingHTLCID
 //@   modifies nothing
